@@ -1,5 +1,6 @@
 """C15 — recorded simulation data mirrors what actually happened."""
 from props._e3 import make
+from vlib.runner import Search, Violation
 
 globals().update(make(
     'C15', ('log',),
@@ -17,3 +18,54 @@ globals().update(make(
     lambda mon, case: mon.c['records'] >= 50 and len([k for k in mon.env.simulation_data if mon.env.simulation_data[k]]) >= 3,
     lambda mon, case: (['traced'] if mon.trace_on else []) + (['traced-with-work-order'] if mon.trace_on and mon.m.wo_started else []),
     quick=(300, 4), thorough=(1500, 16), trace_p=0.25))
+
+
+# "... and schedule record per corresponding occurrence": ActionSchedulers do not occur in E3 models, so a second phase
+# runs E6 timetables and checks the schedule_update records and the work-order records of E5 scenarios.
+_e3_phases = phases
+_e3_run = run_case
+
+
+def phases(tier):
+    from props import c18, c12
+    n = 300 if tier == 'quick' else 2000
+    sh = 2 if tier == 'quick' else 8
+    return _e3_phases(tier) + [Search('scheduler-records', lambda: c18.cases(6, [5, 12, 30]), n, shards=sh, tag='sched'),
+                               Search('maintainer-records', lambda: c12.cases(12), n, shards=sh, tag='maint')]
+
+
+def valid(case):
+    from engines import e3gen
+    return e3gen.well_posed(case) if 'devs' in case else True
+
+
+def run_case(case, ctx):
+    if 'timetable' in case:
+        from engines import sched
+        try:
+            r = sched.run(case)
+        except Violation as v:
+            if v.oracle == 'C18.records':
+                raise Violation('C15.schedule-record', v.msg)
+            return {'nontrivial': False, 'classes': ['scheduler-case-other-oracle']}
+        return {'nontrivial': r['boundaries'] >= 3, 'classes': ['scheduler-records'], 'counters': {'records': r['boundaries']}}
+    if 'requests' in case:
+        from engines import maint
+        try:
+            h = maint.run(case)
+        except Violation:
+            return {'nontrivial': False, 'classes': ['maintainer-case-other-oracle']}
+        sd = h.sys.simulation_data
+        now = h.env.now
+        eq = [(r[0], r[1], r[2]) for r in sd.get('enter_queue', {}).get('m', [])]
+        st = [(r[0], r[1], r[2]) for r in sd.get('start_work_order', {}).get('m', [])]
+        fi = sd.get('finish_work_order', {}).get('m', [])
+        if st != [(t, tg, tag) for (t, tg, tag) in h.starts_log]:
+            raise Violation('C15.work-order', f'start_work_order records {st[:5]} differ from the start hook occurrences '
+                            f'{h.starts_log[:5]}')
+        if len(eq) != h.c['accepted']:
+            raise Violation('C15.work-order', f'{len(eq)} enter_queue records for {h.c["accepted"]} accepted requests')
+        if len(fi) != h.c['ends']:
+            raise Violation('C15.work-order', f'{len(fi)} finish_work_order records for {h.c["ends"]} end hook occurrences')
+        return {'nontrivial': len(st) >= 3, 'classes': ['maintainer-records'], 'counters': {'records': len(eq) + len(st) + len(fi)}}
+    return _e3_run(case, ctx)
